@@ -251,6 +251,13 @@ impl Property for C12 {
     }
     fn streams(&self, tier: Tier, seed: u64) -> Vec<Stream> {
         let mut v = common::string_streams(0xC12, tier, seed, tier.pick(0.5, 0.3));
+        {
+            let n = super::c01::full_alphabet().len() as u64;
+            for len in 0..=3u32 {
+                let blocks = if len <= 2 { 1 } else { n.pow(len - 2) };
+                v.push(Stream::new(&format!("token-sequences-len{len}-three-layouts"), blocks, true, move |i| format!("seq:F:{len}:{i}")));
+            }
+        }
         v.push(Stream::new("single-token-substitutions", substitution_count(), true, |i| format!("s:{}", substitution_case(i))));
         v.push(Stream::new("semantic-faults-non-ascii", tier.pick(20_000, 1_000_000), false, move |i| {
             let mut r = Rng::new(mix(&[seed, 0xC12, 11, i]));
@@ -262,6 +269,41 @@ impl Property for C12 {
         if let Some(s) = input.strip_prefix("s:") {
             check_string(s, obs);
             obs.note = format!("{} bytes: all diagnostic spans valid", s.len());
+            return;
+        }
+        if let Some(rest) = input.strip_prefix("seq:") {
+            let parts: Vec<&str> = rest.split(':').collect();
+            let al = super::c01::full_alphabet();
+            let len: usize = parts[1].parse().unwrap();
+            let mut idx: u64 = parts[2].parse().unwrap();
+            let n = al.len() as u64;
+            let fixed = len.saturating_sub(2);
+            let mut seq: Vec<&str> = Vec::new();
+            for _ in 0..fixed {
+                seq.push(&al[(idx % n) as usize]);
+                idx /= n;
+            }
+            let free = len - fixed;
+            let total = n.pow(free as u32);
+            let mut s = String::new();
+            let mut count = 0;
+            for k in 0..total {
+                seq.truncate(fixed);
+                let mut kk = k;
+                for _ in 0..free {
+                    seq.push(&al[(kk % n) as usize]);
+                    kk /= n;
+                }
+                for layout in 0..super::c01::LAYOUTS {
+                    super::c01::render(&seq, layout, &mut s);
+                    check_string(&s, obs);
+                    count += 1;
+                }
+                if obs.violations.len() > 40 || obs.inconclusive.is_some() {
+                    break;
+                }
+            }
+            obs.note = format!("block of {count} renderings, e.g. {s:?}");
             return;
         }
         obs.inconclusive("unrecognised input spec");
